@@ -97,6 +97,62 @@ pub assume_specification<F: core::str::FromStr>[ str::parse::<F> ](s: &str) -> (
 pub uninterp spec fn trim_spec(s: Seq<char>) -> Seq<char>;
 pub assume_specification[ str::trim ](s: &str) -> (r: &str) ensures r@ == trim_spec(s@);
 }
+pub mod strext {
+    use vstd::prelude::*;
+    verus! {
+    // str methods that take "any pattern", for a character or a string literal (rule T-STR renames the call): exact meaning
+    pub open spec fn trim_start_char(s: Seq<char>, c: char) -> Seq<char> decreases s.len() {
+        if s.len() > 0 && s[0] == c { trim_start_char(s.skip(1), c) } else { s } }
+    pub open spec fn trim_end_char(s: Seq<char>, c: char) -> Seq<char> decreases s.len() {
+        if s.len() > 0 && s.last() == c { trim_end_char(s.drop_last(), c) } else { s } }
+    pub open spec fn has_prefix(s: Seq<char>, p: Seq<char>) -> bool { s.len() >= p.len() && s.take(p.len() as int) == p }
+    pub open spec fn has_suffix(s: Seq<char>, p: Seq<char>) -> bool { s.len() >= p.len() && s.skip(s.len() - p.len()) == p }
+    pub open spec fn trim_start_str(s: Seq<char>, p: Seq<char>) -> Seq<char> decreases s.len() {
+        if p.len() > 0 && has_prefix(s, p) { trim_start_str(s.skip(p.len() as int), p) } else { s } }
+    pub open spec fn trim_end_str(s: Seq<char>, p: Seq<char>) -> Seq<char> decreases s.len() {
+        if p.len() > 0 && has_suffix(s, p) { trim_end_str(s.take(s.len() - p.len()), p) } else { s } }
+    pub trait StrExt {
+        fn trim_start_matches_char(&self, c: char) -> &str;
+        fn trim_end_matches_char(&self, c: char) -> &str;
+        fn trim_start_matches_str(&self, p: &str) -> &str;
+        fn trim_end_matches_str(&self, p: &str) -> &str;
+        fn strip_prefix_str(&self, p: &str) -> Option<&str>;
+        fn strip_suffix_str(&self, p: &str) -> Option<&str>;
+        fn strip_prefix_char(&self, c: char) -> Option<&str>;
+        fn strip_suffix_char(&self, c: char) -> Option<&str>;
+    }
+    impl StrExt for str {
+        #[verifier::external_body] fn trim_start_matches_char(&self, c: char) -> (r: &str) ensures r@ == trim_start_char(self@, c) { self.trim_start_matches(c) }
+        #[verifier::external_body] fn trim_end_matches_char(&self, c: char) -> (r: &str) ensures r@ == trim_end_char(self@, c) { self.trim_end_matches(c) }
+        #[verifier::external_body] fn trim_start_matches_str(&self, p: &str) -> (r: &str) ensures r@ == trim_start_str(self@, p@) { self.trim_start_matches(p) }
+        #[verifier::external_body] fn trim_end_matches_str(&self, p: &str) -> (r: &str) ensures r@ == trim_end_str(self@, p@) { self.trim_end_matches(p) }
+        #[verifier::external_body] fn strip_prefix_str(&self, p: &str) -> (r: Option<&str>)
+            ensures match r { Some(t) => has_prefix(self@, p@) && t@ == self@.skip(p@.len() as int), None => !has_prefix(self@, p@) } { self.strip_prefix(p) }
+        #[verifier::external_body] fn strip_suffix_str(&self, p: &str) -> (r: Option<&str>)
+            ensures match r { Some(t) => has_suffix(self@, p@) && t@ == self@.take(self@.len() - p@.len()), None => !has_suffix(self@, p@) } { self.strip_suffix(p) }
+        #[verifier::external_body] fn strip_prefix_char(&self, c: char) -> (r: Option<&str>)
+            ensures match r { Some(t) => self@.len() > 0 && self@[0] == c && t@ == self@.skip(1), None => !(self@.len() > 0 && self@[0] == c) } { self.strip_prefix(c) }
+        #[verifier::external_body] fn strip_suffix_char(&self, c: char) -> (r: Option<&str>)
+            ensures match r { Some(t) => self@.len() > 0 && self@.last() == c && t@ == self@.drop_last(), None => !(self@.len() > 0 && self@.last() == c) } { self.strip_suffix(c) }
+    }
+    }
+}
+pub use crate::strext::StrExt;
+verus! {
+// std::net::IpAddr as an opaque value with its classification predicates
+#[verifier::external_type_specification]
+#[verifier::external_body]
+pub struct ExIpAddr(std::net::IpAddr);
+#[verifier::external_type_specification]
+#[verifier::external_body]
+pub struct ExAddrParseError(std::net::AddrParseError);
+pub uninterp spec fn ip_is_loopback(a: std::net::IpAddr) -> bool;
+pub uninterp spec fn ip_is_unspecified(a: std::net::IpAddr) -> bool;
+pub uninterp spec fn ip_is_multicast(a: std::net::IpAddr) -> bool;
+pub assume_specification[ std::net::IpAddr::is_loopback ](a: &std::net::IpAddr) -> (r: bool) ensures r == ip_is_loopback(*a);
+pub assume_specification[ std::net::IpAddr::is_unspecified ](a: &std::net::IpAddr) -> (r: bool) ensures r == ip_is_unspecified(*a);
+pub assume_specification[ std::net::IpAddr::is_multicast ](a: &std::net::IpAddr) -> (r: bool) ensures r == ip_is_multicast(*a);
+}
 verus! {
 // Option / Result combinators vstd lacks
 pub assume_specification<T, F: FnOnce() -> std::option::Option<T>> [std::option::Option::<T>::or_else] (o: std::option::Option<T>, f: F) -> (r: std::option::Option<T>)
